@@ -892,5 +892,3 @@ func runRandomUniverse(c *fw.Ctx) {
 		execMatch(c, Case{Op: "match", Universe: "d:random", Filter: &f, Object: &obj})
 	}
 }
-
-var _ = fw.ErrString
